@@ -19,7 +19,7 @@ ASSUMPTIONS = ['correlation ties within 1e-9 (5e-5 for float32 input) are compar
 
 
 def budget(tier):
-    return {'quick': 400, 'thorough': 10000}[tier]
+    return {'quick': 800, 'thorough': 12000}[tier]
 
 
 def strategy(tier):
